@@ -369,6 +369,11 @@ func (x *Exec) applyContract(fr *Frame, st *State, fn *ssa.Function, con *Contra
 		return e
 	}
 	// preconditions
+	if x.prog.implicitRecvNonNil(fn) && len(args) > 0 {
+		if rt, ok := args[0].(*Term); ok {
+			x.oblige(fr, st, "pre", shortKey(key)+":recv", con.frameTagsPlus(x.sweepTags), x.tt.Not(x.tt.Eq(rt, x.tt.IntLit(0))), "receiver of "+key+" must not be nil")
+		}
+	}
 	for _, c := range con.Requires {
 		g := x.evalBool(mkEnv(st, nil), c.Expr)
 		x.oblige(fr, st, "pre", fmt.Sprintf("%s:%d", shortKey(key), c.Ord), c.Tags, g, "precondition of "+key+": "+c.Text)
@@ -410,6 +415,7 @@ func (x *Exec) applyContract(fr *Frame, st *State, fn *ssa.Function, con *Contra
 	}
 	if con.Recycled && len(results) > 0 {
 		x.applyRecycled(st, pre, asTerm(results[0]), res.At(0).Type())
+		x.ownObjs[asTerm(results[0]).id] = true
 	}
 	for _, c := range con.Ensures {
 		if hasTag(c.Tags, "local") {
